@@ -177,6 +177,8 @@ pub const RULE: &str = "cases = (format, input from {documents, mutated document
 
 pub fn run(tier: Tier) -> i32 {
     let mut run = Run::new("C06", tier, "exploration");
+    // C06's statement forbids hangs: a case that burns 20 s of thread CPU time is reported as a livelock
+    run.hang_is_violation = true;
     let p = Total;
     run.replays("total-genuine", &p);
     run.generated("total-genuine", &p, tier.pick(120_000, 5_000_000));
@@ -186,7 +188,7 @@ pub fn run(tier: Tier) -> i32 {
     run.finish(
         RULE,
         &[
-            "a livelock that never calls the source would not be seen by the step budget (the outer watchdog reports it as inconclusive)",
+            "livelocks: a reader that keeps calling the source is caught by the deterministic step budget; one that spins without touching the source is caught when a single generated case has burnt 20 s of thread CPU time (CPU time from /proc, not wall clock; normal cases need microseconds); in every other check a stuck case is reported as inconclusive (exit 2) after VERIF_CASE_TIMEOUT = 180 s",
             "policies returning a size <= current and seeks to non-record positions are outside the stated domain",
             "FASTQ groups mixing terminators count as records of the input when handed out (most permissive reading)",
         ],
